@@ -297,3 +297,68 @@ Proof.
   pose proof (filter_flat_nodes nid _ pcs Hv Hn Dd Hl He) as K. rewrite <- C in K.
   rewrite A. symmetry. exact K.
 Qed.
+
+(** ** Absence: if every consumed piece excludes the namespace, the tree holds no leaf of it *)
+Lemma excluded_no_leaf nid T n :
+  valid T -> (nid < maxns)%N -> subt n T -> excludes nid n -> filter (has_prefix nid) (leaves_of n) = [].
+Proof.
+  intros Hv Hn Hs He. pose proof (valid_subt _ _ Hv Hs) as Hvn.
+  destruct (filter (has_prefix nid) (leaves_of n)) as [|x xs] eqn:EF; [reflexivity|exfalso].
+  assert (Hx : In x (filter (has_prefix nid) (leaves_of n))) by (rewrite EF; left; reflexivity).
+  apply filter_In in Hx as [Hx1 Hx2]. unfold has_prefix in Hx2.
+  destruct (leaf_prefix x) as [q|] eqn:Eq; [|discriminate]. apply N.eqb_eq in Hx2. subst q.
+  pose proof (valid_range n Hvn nid x Hn Hx1 Eq) as R. destruct He; lia.
+Qed.
+
+Lemma filter_flat_excluded nid T (pcs : list piece) :
+  valid T -> (nid < maxns)%N ->
+  Forall (fun pc => subt (snd pc) T) pcs -> Forall (fun pc => excludes nid (snd pc)) pcs ->
+  filter (has_prefix nid) (flat pcs) = [].
+Proof.
+  intros Hv Hn. induction pcs as [|[b n] pcs IH]; intros Hs He; [reflexivity|].
+  inversion Hs; subst. inversion He; subst. cbn [flat flat_map snd]. rewrite filter_app. fold (flat pcs).
+  rewrite IH by assumption. cbn in *. rewrite (excluded_no_leaf nid T n) by assumption. reflexivity.
+Qed.
+
+Theorem verify_leaf_hashes_absent D X p nid lf :
+  Forall leafk X -> length X = 2 ^ D -> valid (tree D X) -> (nid < maxns)%N ->
+  p_leaf p = Some lf ->
+  verify_leaf_hashes p true nid [lf] (tree D X) = true ->
+  filter (has_prefix nid) X = [].
+Proof.
+  intros HF HL Hv Hn Hlf H. unfold verify_leaf_hashes in H.
+  apply andb_true_iff in H as [H Hc]. apply andb_true_iff in H as [H Hcomp]. apply andb_true_iff in H as [H _].
+  apply andb_true_iff in H as [Hst _]. cbn [negb orb] in Hcomp.
+  destruct (compute_root p [lf]) as [r|] eqn:CR; [|discriminate]. apply dig_eqb_eq in Hc. subst r.
+  unfold validate_structure in Hst. rewrite Hlf in Hst.
+  apply andb_true_iff in Hst as [Hst _]. apply andb_true_iff in Hst as [Hst _]. apply andb_true_iff in Hst as [Hst Hleaf].
+  apply andb_true_iff in Hst as [Hse Hlen]. apply Nat.ltb_lt in Hse. apply Nat.eqb_eq in Hlen.
+  apply andb_true_iff in Hleaf as [_ Hlt]. apply N.ltb_lt in Hlt.
+  destruct (compute_root_covers _ _ _ Hse Hlen CR) as [pcs [A [B [C Dd]]]].
+  rewrite (leaves_of_tree D X HF HL) in C. rewrite C.
+  pose proof (completeness_excludes _ _ Hcomp) as Hex. rewrite B in Hex.
+  apply (filter_flat_excluded nid (tree D X)); try assumption.
+  apply Forall_forall. intros [b n] Hin. cbn. destruct b.
+  - assert (In n (lh_of pcs)).
+    { unfold lh_of. apply in_map_iff. exists (true, n). split; [reflexivity|]. apply filter_In. split; [exact Hin|reflexivity]. }
+    rewrite <- A in H. destruct H as [<-|[]]. right. exact Hlt.
+  - rewrite Forall_forall in Hex. apply Hex. unfold nodes_of. apply in_map_iff. exists (false, n). split; [reflexivity|].
+    apply filter_In. split; [exact Hin|reflexivity].
+Qed.
+
+(** ** Boolean well-formedness (evaluated on the symbolised roots of real squares by the harness) *)
+Fixpoint validb (t : dig) : bool :=
+  match t with
+  | DLeaf mn mx p _ _ => (mn =? p)%N && (mx =? p)%N
+  | DNode mn mx l r => validb l && validb r &&
+                       match hash_node l r with Some t' => dig_eqb t' t | None => false end
+  | _ => false
+  end.
+
+Lemma validb_valid t : validb t = true -> valid t.
+Proof.
+  induction t as [mn mx p sn sid | mn mx l IHl r IHr | |]; cbn; intros H; try discriminate.
+  - apply andb_true_iff in H as [A B]. apply N.eqb_eq in A. apply N.eqb_eq in B. auto.
+  - apply andb_true_iff in H as [H C]. apply andb_true_iff in H as [A B].
+    destruct (hash_node l r) as [t'|] eqn:E; [|discriminate]. apply dig_eqb_eq in C. subst t'. auto.
+Qed.
